@@ -45,10 +45,11 @@ pub const ALT_ELISP: &[&str] = &[
 ];
 
 /// Racket / mixed options.
-pub const ALT_OTHER: &[&str] = &["#%a", "#%app", "(#%a b)", "#%", "a:", "k-w:", "λ:", "(a: b)", "[a: b:]", "#:a", ":a:", "::", ":", "nil:", ":nil", "t:", "nilx", "tt", "NIL", "T", "1a:"];
+pub const ALT_OTHER: &[&str] = &["(a .b: 1)", "(.c:)", ".e:", "#(x (.d: y))", "(a . .f:)", "[.g: a]", "#%a", "#%app", "(#%a b)", "#%", "a:", "k-w:", "λ:", "(a: b)", "[a: b:]", "#:a", ":a:", "::", ":", "nil:", ":nil", "t:", "nilx", "tt", "NIL", "T", "1a:"];
 
 /// Malformed or partial items (used for streams and error-path differentials).
 pub const MALFORMED: &[&str] = &[
+    "#(#z) a", "#(1 2 #z ) a b", "[1 #z] a", "(#z) a", "(1 #z) a", "(a . #z) b", "#u8(1 #z) a", "'#z a", "(a #(1 #z) b) c", "#(a (1 #z) b) c",
     ")", "]", "(", "[", "(a", "(a .", "(a . b", "(a . b c)", "(. a)", "( . )", "(a . )", "#(", "#(a", "#(a . b)", "[a)", "(a]", "#(a]", "\"", "\"abc", "\"\\", "\"\\x", "\"\\x41", "\"\\q\"",
     "\"\\xD800;\"", "\"\\x110000;\"", "#", "#n", "#ni", "#nix", "#u", "#u8", "#u8(", "#u8(256)", "#u8(-1)", "#u8(a)", "#u8(1.5)", "#u8 1", "#vu", "#vu8", "#vu9(", "#b", "#b2", "#o8", "#xg",
     "#x", "#x-", "#d", "#e1", "#\\", "#\\spac", "#\\spacex", "#\\x110000", "#\\xD800", "#\\xg", "1.", "1.e", "1e", "1e+", "1.5e", "1.5.6", "1/2", "1x", "12ab", "0x10", "+.", "-.", "+.5", "-.5", ".5", "1e400", "1e99999999999",
